@@ -80,6 +80,13 @@ def states(tier, seed):
     for k, p, proj in [("XSHERANC", "NC", "positron"), ("XSCHORUSCC", "CC", "antineutrino"), ("XSNUTEVNU", "CC", "neutrino"), ("XSHERACC", "CC", "electron"), ("g5", "NC", "electron")]:
         for sc, tmc in itertools.product(["ZM-VFNS", "FFNS3"], [0, 1]):
             out.append({"mode": "rotation", "kind": k, "heavyness": "total", "process": p, "scheme": sc, "pto": 1, "Q2": 30.0, "Z": 23.403, "A": 49.618, "projectile": proj, "tmc": tmc, "y": 0.4})
+    # combinations (each harmless alone): PTO 2 + TMC + anti-lepton beam + polarisation, massive and FONLL schemes, scale variations off
+    for (k, p, proj), sc in itertools.product([("F2", "NC", "positron"), ("F3", "CC", "antineutrino"), ("g1", "NC", "positron"), ("FL", "CC", "positron")], ["ZM-VFNS", "FFNS3", "FONLL-FFNS4", "FFN03"]):
+        if sc == "FFN03" and k in ("g1",):
+            continue
+        st = {"mode": "rotation", "kind": k, "heavyness": "total", "process": p, "scheme": sc, "pto": 2 if sc in ("ZM-VFNS", "FFNS3") else 1, "Q2": 30.0, "Z": 23.403, "A": 49.618, "projectile": proj, "tmc": 1, "obscard": {"PolarizationDIS": 0.7, "PropagatorCorrection": 0.05}}
+        out.append(st)
+        out.append(dict(st, tmc=3, Z=0.3, A=1.0, heavyness="charm" if sc != "ZM-VFNS" else "light"))
     for name in NAMED:
         for k, p, sc in itertools.product(["F2", "F3"], ["NC", "CC"], ["ZM-VFNS", "FFNS3"]):
             out.append({"mode": "named", "kind": k, "heavyness": "total", "process": p, "scheme": sc, "pto": 1, "Q2": 30.0, "name": name})
